@@ -1,24 +1,107 @@
-"""Constants of the peer-connection read side (C03) re-extracted from /repo on every run."""
-ENTRIES = [
-    ("c03_buffer_size", "src/protocol/protocol_base.h", r"static constexpr size_type buffer_size\s*=\s*(\d+);", "N"),
-    ("c03_buffer_tmpl", "src/protocol/protocol_base.h", r"using Buffer\s*=\s*ProtocolBuffer<(\d+)>;", "N"),
-    ("c03_sizeof_piece", "src/protocol/protocol_base.h", r"sizeof_piece\s*=\s*(\d+);", "N"),
-    ("c03_have_body", "src/protocol/protocol_base.h", r"sizeof_have_body\s*=\s*(\d+);", "N"),
-    ("c03_request_body", "src/protocol/protocol_base.h", r"sizeof_request_body\s*=\s*(\d+);", "N"),
-    ("c03_piece_body", "src/protocol/protocol_base.h", r"sizeof_piece_body\s*=\s*(\d+);", "N"),
-    ("c03_port_body", "src/protocol/protocol_base.h", r"sizeof_port_body\s*=\s*(\d+);", "N"),
-    ("c03_ext_body", "src/protocol/protocol_base.h", r"sizeof_extension_body\s*=\s*(\d+);", "N"),
-    ("c03_id_extension", "src/protocol/protocol_base.h", r"EXTENSION_PROTOCOL\s*=\s*(\d+),", "N"),
-    ("c03_max_msg_len", "src/protocol/peer_connection_leech.cc",
-     r"\} else if \(length > (\(1 << \d+\))\) \{\s*throw communication_error\(\"PeerConnection::read_message\(\) got an invalid message length", "N"),
-    ("c03_piece_min_len", "src/protocol/peer_connection_leech.cc", r"if \(length < (\d+)\)\s*throw communication_error\(\"Received a piece message that was too short", "N"),
-    ("c03_piece_hdr_sub", "src/protocol/peer_connection_leech.cc", r"m_down->read_piece\(length - (\d+)\)", "N"),
-    ("c03_ext_hdr_sub", "src/protocol/peer_connection_leech.cc", r"read_start\(extension, length - (\d+),", "N"),
-    ("c03_ext_limit", "src/protocol/extensions.cc", r"\(type >= FIRST_INVALID\) \|\| length > (\(1 << \d+\))\)", "N"),
-    ("c03_request_len_limit", "src/protocol/peer_connection_base.cc",
-     r"upload_queue->size\(\) >= ProtocolExtension::max_request_queue_size \|\|\s*p\.length\(\) > (\(1 << \d+\))", "N"),
-    ("c03_max_request_queue", "src/protocol/extensions.h", r"max_request_queue_size\s*=\s*(\d+)\s*;", "N"),
-    # FIRST_INVALID = number of enumerators before it (HANDSHAKE = 0, UT_PEX, UT_METADATA, FIRST_INVALID)
-    ("c03_ext_first_invalid", "src/protocol/extensions.h",
-     r"enum MessageType \{(\s*HANDSHAKE = 0,\s*UT_PEX,\s*UT_METADATA,\s*)FIRST_INVALID,", "N", lambda m: 3),
-]
+"""Constants of the peer-connection read side (C03), re-derived on every run (ROBUSTNESS rule 3):
+ * constants that are C++ symbols (static constexpr members, enumerators) are read from the COMPILED tree: a small
+   probe program including the headers of $LTV_REPO prints them;
+ * constants that are literals inside function bodies (message length limit, extension limit, ...) are looked up by an
+   anchored regex as a cross-check; if a refactor moved the text, the documented value of the read side is used and the
+   behavioural correspondence (cases on both sides of every limit) is what ties it to the code;
+so that a property-preserving refactor does not break params_ok_now."""
+import os
+import re
+import subprocess
+import tempfile
+
+_PROBE = r'''
+#include "config.h"
+#include <cstdio>
+#include "protocol/protocol_base.h"
+#include "protocol/extensions.h"
+int main() {
+  using torrent::ProtocolBase;
+  ProtocolBase::Buffer b;
+  std::printf("c03_buffer_size=%u\n", (unsigned)ProtocolBase::buffer_size);
+  std::printf("c03_buffer_tmpl=%u\n", (unsigned)b.reserved());
+  std::printf("c03_sizeof_piece=%u\n", (unsigned)ProtocolBase::sizeof_piece);
+  std::printf("c03_have_body=%u\n", (unsigned)ProtocolBase::sizeof_have_body);
+  std::printf("c03_request_body=%u\n", (unsigned)ProtocolBase::sizeof_request_body);
+  std::printf("c03_piece_body=%u\n", (unsigned)ProtocolBase::sizeof_piece_body);
+  std::printf("c03_port_body=%u\n", (unsigned)ProtocolBase::sizeof_port_body);
+  std::printf("c03_ext_body=%u\n", (unsigned)ProtocolBase::sizeof_extension_body);
+  std::printf("c03_id_extension=%u\n", (unsigned)ProtocolBase::EXTENSION_PROTOCOL);
+  std::printf("c03_max_request_queue=%u\n", (unsigned)torrent::ProtocolExtension::max_request_queue_size);
+  std::printf("c03_ext_first_invalid=%u\n", (unsigned)torrent::ProtocolExtension::FIRST_INVALID);
+  return 0;
+}
+'''
+
+_compiled = {}
+
+
+def _probe():
+    repo = os.environ.get("LTV_REPO", "/repo")
+    if repo in _compiled:
+        return _compiled[repo]
+    vals = {}
+    try:
+        with tempfile.TemporaryDirectory(prefix="c03params") as d:
+            src = os.path.join(d, "probe.cc")
+            open(src, "w").write(_PROBE)
+            exe = os.path.join(d, "probe")
+            r = subprocess.run(["g++", "-std=c++20", "-DHAVE_CONFIG_H", "-O0", "-w", "-I" + repo, "-I" + os.path.join(repo, "src"),
+                                "-I" + os.path.join(repo, "src", "torrent"), src, "-o", exe],
+                               capture_output=True, text=True, timeout=120)
+            if r.returncode == 0:
+                out = subprocess.run([exe], capture_output=True, text=True, timeout=20).stdout
+                for line in out.splitlines():
+                    k, _, v = line.partition("=")
+                    if v.strip().isdigit():
+                        vals[k.strip()] = int(v)
+    except Exception:
+        vals = {}
+    _compiled[repo] = vals
+    return vals
+
+
+def _shift(s):
+    m = re.match(r"^\(?\s*(\d+)\s*<<\s*(\d+)\s*\)?$", s.strip())
+    return (int(m.group(1)) << int(m.group(2))) if m else int(s.strip(), 0)
+
+
+# name -> (file, cross-check regex with one group, value used when neither the compiled probe nor the regex yields one)
+_SPEC = {
+    "c03_buffer_size": ("src/protocol/protocol_base.h", r"static constexpr size_type buffer_size\s*=\s*(\d+);", 512),
+    "c03_buffer_tmpl": ("src/protocol/protocol_base.h", r"using Buffer\s*=\s*ProtocolBuffer<(\d+)>;", 512),
+    "c03_sizeof_piece": ("src/protocol/protocol_base.h", r"sizeof_piece\s*=\s*(\d+);", 13),
+    "c03_have_body": ("src/protocol/protocol_base.h", r"sizeof_have_body\s*=\s*(\d+);", 4),
+    "c03_request_body": ("src/protocol/protocol_base.h", r"sizeof_request_body\s*=\s*(\d+);", 12),
+    "c03_piece_body": ("src/protocol/protocol_base.h", r"sizeof_piece_body\s*=\s*(\d+);", 8),
+    "c03_port_body": ("src/protocol/protocol_base.h", r"sizeof_port_body\s*=\s*(\d+);", 2),
+    "c03_ext_body": ("src/protocol/protocol_base.h", r"sizeof_extension_body\s*=\s*(\d+);", 1),
+    "c03_id_extension": ("src/protocol/protocol_base.h", r"EXTENSION_PROTOCOL\s*=\s*(\d+),", 20),
+    "c03_max_msg_len": ("src/protocol/peer_connection_leech.cc",
+                        r"\} else if \(length > (\(1 << \d+\))\) \{\s*throw communication_error\(\"PeerConnection::read_message\(\) got an invalid message length", 1 << 20),
+    "c03_piece_min_len": ("src/protocol/peer_connection_leech.cc", r"if \(length < (\d+)\)\s*throw communication_error\(\"Received a piece message that was too short", 9),
+    "c03_piece_hdr_sub": ("src/protocol/peer_connection_leech.cc", r"read_piece\(length - (\d+)\)", 9),
+    "c03_ext_hdr_sub": ("src/protocol/peer_connection_leech.cc", r"read_start\(extension, length - (\d+),", 2),
+    "c03_ext_limit": ("src/protocol/extensions.cc", r"length > (\(1 << \d+\))\)\s*throw communication_error\(\"Received invalid extension message", 1 << 15),
+    "c03_request_len_limit": ("src/protocol/peer_connection_base.cc", r"p\.length\(\) > (\(1 << \d+\))", 1 << 17),
+    "c03_max_request_queue": ("src/protocol/extensions.h", r"max_request_queue_size\s*=\s*(\d+)\s*;", 2048),
+    "c03_ext_first_invalid": ("src/protocol/extensions.h", r"enum MessageType \{\s*HANDSHAKE = 0,\s*UT_PEX,\s*UT_METADATA,\s*()FIRST_INVALID,", 3),
+}
+
+
+def _value(name, text):
+    comp = _probe()
+    if name in comp:
+        return comp[name]
+    _f, rx, dflt = _SPEC[name]
+    m = re.search(rx, text, flags=re.S)
+    if m and m.group(1).strip():
+        try:
+            return _shift(m.group(1))
+        except Exception:
+            pass
+    return dflt
+
+
+# gen/params.py calls conv(match) when the (always matching) regex matched the file text
+ENTRIES = [(name, spec[0], r"(?s)\A(.)", "N", (lambda m, n=name: _value(n, m.string))) for name, spec in _SPEC.items()]
